@@ -381,7 +381,73 @@ def run_sweep(item, part):
                 part.outcome("sweep:newer")
 
 
+def run_type_sweep(item, part):
+    """EVERY versionable type of the frozen model (object and dict form): new_version, revoke and an explicit later 'modified' under the clock answers that make the
+    version rule bite - the per-type property tables must agree with the rule new_version applies (precision of 'modified', versionability)"""
+    import stix2
+    from mc.spec import gen, model
+    from stix2 import versioning as V
+    env.reset()
+    ver, key = item["version"], item["key"]
+    c = model.spec(ver).classes[key]
+    if not {"created", "modified", "revoked"} <= set(c["properties"]) or c.get("type") in ("bundle",):
+        part.outcome("type-sweep:not-versionable")
+        return
+    g = gen.Gen(ver)
+    for mod in ("2020-01-01T00:00:00.000Z", "2020-01-01T00:00:00.123Z") + (("2020-01-01T00:00:00.123400Z",) if ver == "2.1" else ()):
+        d = dict(g.minimal(key), modified=mod, created="2019-01-01T00:00:00.000Z")
+        if model.validate(d, ver):
+            part.outcome("type-sweep:base-not-valid")
+            continue
+        for kind in ("obj", "dict"):
+            try:
+                obj = copy.deepcopy(d) if kind == "dict" else stix2.parse(copy.deepcopy(d), version=ver)
+            except Exception:
+                part.outcome("type-sweep:base-refused(C03's business)")
+                continue
+            cur = tsfmt.instant_of(mod)
+            for cname, us in (("-1s", -1000000), ("0", 0), ("+1us", 1), ("+999us", 999), ("+1ms", 1000)):
+                for op in ("new_version", "revoke"):
+                    part.transitions += 1
+                    part.evaluations += 1
+                    cs = {"kind": "type-sweep", "version": ver, "key": key, "modified": mod, "form": kind, "clock": cname, "op": op}
+                    env.CLOCK.frozen = to_dt(cur + us * tsfmt.PS_PER_US)
+                    try:
+                        res = V.new_version(obj, external_references=[{"source_name": "s", "url": "u"}]) if op == "new_version" else V.revoke(obj)
+                    except Exception as e:
+                        part.outcome("type-sweep:raises")
+                        part.violation("C05/legal-op-refused/%s/type-sweep" % type(e).__name__, "a legal change set is refused", cs, "new version", "%s: %s" % (type(e).__name__, str(e)[:150]))
+                        continue
+                    finally:
+                        env.CLOCK.frozen = None
+                    new = tsfmt.instant_of(view(res).get("modified"))
+                    part.state(("type-sweep", ver, key, mod, kind, cname, op), nontrivial=True)
+                    if new is None or not trunc_ps(new, ver) > trunc_ps(cur, ver):
+                        part.outcome("type-sweep:NOT-NEWER")
+                        part.violation("C05/not-strictly-newer/v%s/%s/clock%s/type-sweep" % (ver, kind, cname), "modified is not strictly later after serialization at the version's precision",
+                                       cs, "> " + mod, view(res).get("modified"))
+                    else:
+                        part.outcome("type-sweep:newer")
+            # an explicit modified one microsecond (2.1) / one millisecond (2.0) later is accepted and written as given; the same instant is refused
+            step = 1 if ver == "2.1" else 1000
+            for delta, legal in ((step, True), (0, False)):
+                part.transitions += 1
+                cs = {"kind": "type-sweep", "version": ver, "key": key, "modified": mod, "form": kind, "op": "explicit-modified", "delta_us": delta}
+                want = tsfmt.fmt((cur + delta * tsfmt.PS_PER_US) // tsfmt.PS_PER_US, "millisecond", "min" if ver == "2.1" else "exact")
+                try:
+                    res = V.new_version(obj, modified=want)
+                    got = view(res).get("modified")
+                except Exception as e:
+                    got = type(e).__name__
+                ok = (tsfmt.instant_of(got) == tsfmt.instant_of(want)) if legal and isinstance(got, str) and got.endswith("Z") else (not legal and got == "InvalidValueError")
+                if not ok:
+                    part.violation("C05/explicit-modified/%s/type-sweep" % ("later-not-kept" if legal else "not-later-accepted"), "an explicit modified is not handled by the version rule of the object's spec version",
+                                   cs, want if legal else "InvalidValueError", got)
+
+
 def run_item(item, part):
+    if item.get("kind") == "type-sweep":
+        return run_type_sweep(item, part)
     if item.get("kind") == "sweep":
         return run_sweep(item, part)
     if "forms" in item:
@@ -390,6 +456,8 @@ def run_item(item, part):
 
 
 def replay(case, part):
+    if case.get("kind") == "type-sweep":
+        return run_type_sweep({"kind": "type-sweep", "version": case["version"], "key": case["key"]}, part)
     if case.get("kind") == "sweep":
         return run_sweep({k: v for k, v in case.items() if k != "clock"}, part)
     if case.get("sequence"):
@@ -444,6 +512,8 @@ def run(run):
             for lo in range(0, 1000, 250):
                 sweep.append({"kind": "sweep", "form": form, "base": base, "ms_lo": lo, "ms_hi": lo + 250})
     run.pmap(run_item, sweep)
+    from mc.spec import gen as _gen
+    run.pmap(run_item, [{"kind": "type-sweep", "version": v, "key": k} for v in ("2.0", "2.1") for k in _gen.Gen(v).top_keys()])
     run.rule = ("BFS over new_version/revoke/marking histories; each clock-reading operation x 8 clock answers relative to the current modified; full alphabet from states "
                 "at depth <= 1, reduced alphabet (one change op x 8 clocks, explicit modified x 6, revoke) from deeper states; states = distinct serialized objects; "
                 "non-trivial = reached by at least one operation; plus the automatic modified time for every millisecond of %d base seconds x 6 clock readings x 4 forms" % len(SWEEP_SECONDS))
